@@ -16,11 +16,11 @@ PROP = "C33"
 N = {"quick": 500, "thorough": 24000}
 WORKERS = {"quick": 4, "thorough": 16}
 TIMEOUT = {"quick": 600, "thorough": 3000}
-RULE = ("1-D: two node sets (2-12 nodes, min spacing 1e-3 of the length, shared end points, "
+RULE = ("1-D: two node sets (2-12 nodes, min spacing 0.02 of the length, shared end points, "
         "some coincident interior nodes, segments listed in random order and orientation) on a "
-        "common segment with random / axis-aligned / nearly axis-aligned direction, random "
-        "origin and length 1e-1..1e2 (cases in which a coordinate increment of some cell lies in "
-        "the absolute tolerance band 1e-10..1e-6 of segments_3d are excluded); 2-D: two Delaunay "
+        "common segment with random (all components >= 0.05) / axis-aligned direction, random "
+        "origin and length 1..1e2 (cases inside the absolute tolerance band of segments_3d, "
+        "e.g. nearly axis-aligned directions, are excluded and counted); 2-D: two Delaunay "
         "triangulations of one convex lattice polygon with shared hull vertices, either "
         "(generic) with independent random interior points, mapped by a random similarity and "
         "for match_2d embedded in a random plane, or (lattice) with random subsets of lattice "
@@ -50,8 +50,9 @@ REQUIRED = {
 ASSUMPTIONS = [
     "both tessellations cover exactly the same segment / convex polygon (checked exactly on "
     "the lattice data before mapping)",
-    "neighbouring nodes are at least 1e-3 of the domain size apart, far above the 1e-8 "
-    "tolerance of segments_3d",
+    "neighbouring nodes are at least 0.02 of the domain size apart; segments_3d compares "
+    "increments and increment ratios with an absolute tolerance 1e-8, inputs within a factor "
+    "100 of that band are excluded",
     "match_*(scaling=None): tol = 1e-6 of the smallest cell measure, overlaps are 0 or much larger",
 ]
 LEVEL_TEXT = ("Non-negativity and the per-cell sum of reported overlaps (both tessellations) and "
@@ -65,27 +66,31 @@ TOL_SURF = 1e-7     # repeated shapely overlays: observed floor 5e-11 (snap roun
 
 # ------------------------------------------------------------------------- generators
 def _direction(rng):
-    cls = str(rng.choice(["random", "axis", "near_axis"], p=[0.7, 0.22, 0.08]))
+    cls = str(rng.choice(["random", "axis", "near_axis"], p=[0.72, 0.23, 0.05]))
     if cls == "random":
-        v = rng.normal(size=3)
+        while True:
+            v = rng.normal(size=3)
+            v = v / np.linalg.norm(v)
+            if np.all(np.abs(v) >= 0.05):
+                break
     else:
         v = np.zeros(3)
         v[int(rng.integers(0, 3))] = rng.choice([-1.0, 1.0])
-        if cls == "near_axis":
+        if cls == "near_axis":      # inside the tolerance band of segments_3d: excluded
             v = v + float(rng.choice([1e-7, 1e-3])) * rng.normal(size=3)
     v = v / np.linalg.norm(v)
     return [float(x) for x in v], cls
 
 
 def _nodes_1d(rng, n, shared=None):
-    """Sorted parameters in [0, 1] with min spacing 1e-3, endpoints included."""
+    """Sorted parameters in [0, 1] with min spacing 0.02, endpoints included."""
     for _ in range(100):
         x = list(rng.uniform(0.02, 0.98, size=n - 2))
         if shared is not None and len(shared) and n > 2:
             for k in range(min(len(x), int(rng.integers(0, 3)))):
                 x[k] = float(shared[int(rng.integers(0, len(shared)))])
         x = np.unique(np.round(np.array([0.0, 1.0] + x), 6))
-        if np.all(np.diff(x) >= 1e-3):
+        if np.all(np.diff(x) >= 0.02):
             return [float(v) for v in x]
     return [0.0, 1.0]
 
@@ -96,8 +101,8 @@ def _case_line(rng, kind):
     x2 = _nodes_1d(rng, int(rng.integers(2, 13)), shared=x1[1:-1])
     if rng.random() < 0.1:
         x2 = list(x1)
-    return {"kind": kind, "cls": cls, "d": d, "length": float(10.0 ** rng.uniform(-1, 2)),
-            "origin": [float(v) for v in rng.uniform(-3, 3, size=3)],
+    return {"kind": kind, "cls": cls, "d": d, "length": float(10.0 ** rng.uniform(0, 2)),
+            "origin": [float(v) for v in rng.uniform(-1, 1, size=3)],
             "x1": x1, "x2": x2, "seed": int(rng.integers(0, 2 ** 31))}
 
 
@@ -263,7 +268,7 @@ def floor(tier):
                     "d": [0.0, 0.0, -1.0]})
         out.append({**base, "kind": kind, "x1": [0.0, 0.2, 0.9, 1.0], "x2": [0.0, 0.2, 0.9, 1.0],
                     "d": [0.6, 0.0, 0.8], "origin": [1.0, -2.0, 0.5], "length": 3.0})
-        out.append({**base, "kind": kind, "x1": [0.0, 0.001, 1.0], "x2": [0.0, 0.999, 1.0],
+        out.append({**base, "kind": kind, "x1": [0.0, 0.02, 1.0], "x2": [0.0, 0.98, 1.0],
                     "d": [1.0 / 3, 2.0 / 3, -2.0 / 3], "length": 50.0})
     sq = [[0, 0], [2, 0], [2, 2], [0, 2]]
     s1 = {"p": sq, "t": [[0, 1, 2], [0, 2, 3]]}
@@ -345,12 +350,24 @@ def _line_geometry(case):
 
 
 def _in_segments_3d_band(case, mon, p1, p2):
-    """segments_3d classifies coordinate increments with the absolute tolerance 1e-8; a
-    tessellation with increments around that value is inside its tolerance band."""
+    """segments_3d decides parallelism with the absolute tolerance 1e-8, (a) on the coordinate
+    increments themselves and (b) on the ratio of increments of the two segments, whose
+    rounding error is (length ratio) * eps * |coordinate| / |increment|.  Tessellations for
+    which (a) an increment is comparable to 1e-8 or (b) the estimated error of the ratio
+    comes within a factor 100 of 1e-8 are inside the tolerance band of that function."""
     inc = np.abs(np.hstack([np.diff(p1, axis=1), np.diff(p2, axis=1)]))
     if np.any((inc > 1e-10) & (inc < 1e-6)):
         mon.excluded("1-D: a coordinate increment of a cell lies in the absolute tolerance "
                      "band (1e-10, 1e-6) of segments_3d")
+        return True
+    big = inc[inc >= 1e-6]
+    seg = np.linalg.norm(np.hstack([np.diff(p1, axis=1), np.diff(p2, axis=1)]), axis=0)
+    coord = max(float(np.abs(p1).max()), float(np.abs(p2).max()))
+    est = (seg.max() / seg.min()) * 2.3e-16 * coord / float(big.min())
+    mon.measure("line_ratio_rounding_estimate", est)
+    if est > 1e-10:
+        mon.excluded("1-D: estimated rounding error of the increment ratio within a factor "
+                     "100 of the 1e-8 tolerance of segments_3d")
         return True
     return False
 
